@@ -275,3 +275,165 @@ func onlyZeroTests(bo *ssa.BinOp) bool {
 	}
 	return true
 }
+
+// ---------------------------------------------------------------------------------------------
+// R18.9 — scans over sorted spans stop early only on the primary sort key
+
+func init() {
+	register(ruleDef{ID: "R18.9", Prop: "C18", Tier: "quick", Floor: 2,
+		Title: "a scan over (z, y, x0)-sorted ROI spans gives up early only on z: an exit from the loop over the spans that ends the search without a hit is decided by the span's z alone (y and x start over in every plane)",
+		Fn:    ruleSpanScanExit})
+}
+
+func ruleSpanScanExit(r *Run) {
+	w := r.W
+	n := 0
+	for _, f := range w.RepoFuncs {
+		if len(f.Blocks) == 0 || strings.HasSuffix(w.fposFile(f), "_test.go") {
+			continue
+		}
+		p := relPkg(pkgPathOf(f))
+		if p != "dvid" && p != "datatype/roi" {
+			continue
+		}
+		loops := naturalLoops(f)
+		k := 0
+		for _, h := range f.Blocks {
+			set := loops[h]
+			if set == nil {
+				continue
+			}
+			// the loop ranges over a slice of spans: the header compares an index with len(spans)
+			ifi, ok := h.Instrs[len(h.Instrs)-1].(*ssa.If)
+			if !ok {
+				continue
+			}
+			overSpans := false
+			for d := range dataDeps(ifi.Cond) {
+				if c, ok := d.(*ssa.Call); ok {
+					if bi, ok := c.Call.Value.(*ssa.Builtin); ok && bi.Name() == "len" {
+						if sl, ok := c.Call.Args[0].Type().Underlying().(*types.Slice); ok {
+							if nm := namedOf(sl.Elem()); nm != nil && nm.Obj().Name() == "Span" {
+								overSpans = true
+							}
+						}
+					}
+				}
+			}
+			if !overSpans {
+				continue
+			}
+			for _, b := range f.Blocks {
+				if !set[b] || b == h {
+					continue
+				}
+				bif, ok := b.Instrs[len(b.Instrs)-1].(*ssa.If)
+				if !ok {
+					continue
+				}
+				for _, s := range b.Succs {
+					if set[s] {
+						continue
+					}
+					// a positive answer may depend on everything
+					if ret, ok := s.Instrs[len(s.Instrs)-1].(*ssa.Return); ok && len(s.Instrs) == 1 && len(ret.Results) > 0 {
+						if c, ok := ret.Results[0].(*ssa.Const); ok && constVal(c).K == ABool && constVal(c).B {
+							continue
+						}
+					}
+					// error exits are not answers
+					if successReachable(s, set) == nil {
+						continue
+					}
+					other := ""
+					usesSpan := false
+					cmp, isCmp := bif.Cond.(*ssa.BinOp)
+					if !isCmp {
+						continue
+					}
+					for _, d := range []ssa.Value{stripConv(cmp.X), stripConv(cmp.Y)} {
+						if kind, axis, ok := axisOf(d); ok && kind == "span" {
+							usesSpan = true
+							// lexicographic comparison: a test on y (x) is fine once z (z and y) are known equal
+							need := []int{2}
+							if axis == 0 {
+								need = []int{2, 1}
+							}
+							if axis != 2 {
+								for _, ax := range need {
+									if !spanAxisEqualAt(f, ax, b) {
+										other = w.pos(bif.Cond.Pos())
+									}
+								}
+							}
+						}
+					}
+					if !usesSpan {
+						continue
+					}
+					n++
+					k++
+					r.check(other == "", fmt.Sprintf("%s:span-scan-exit#%d", fname(f), k), "the early exit is decided by the span's z only",
+						"the scan over the sorted spans is abandoned on a comparison of a span's y or x: spans are sorted by (z, y, x0), so y and x start over in every z plane and later planes that intersect are never examined", other)
+				}
+			}
+		}
+	}
+	r.check(n >= 2, "roi:span-scans", fmt.Sprintf("%d early exits from span scans examined", n), "span scans not found: rule needs review", "-")
+}
+
+// spanAxisEqualAt: block b is only reached when a span's component on `axis` equals some value q:
+// the false edges of both `span[axis] > q` and `span[axis] < q` (same q), or an equality test, guard it.
+func spanAxisEqualAt(f *ssa.Function, axis int, b *ssa.BasicBlock) bool {
+	at := b.Instrs[0]
+	gt, lt := map[string]bool{}, map[string]bool{}
+	for _, blk := range f.Blocks {
+		ifi, ok := blk.Instrs[len(blk.Instrs)-1].(*ssa.If)
+		if !ok {
+			continue
+		}
+		bo, ok := ifi.Cond.(*ssa.BinOp)
+		if !ok {
+			continue
+		}
+		x, y, op := stripConv(bo.X), stripConv(bo.Y), bo.Op
+		if kind, ax, ok := axisOf(y); ok && kind == "span" && ax == axis {
+			x, y = y, x
+			switch op {
+			case token.LSS:
+				op = token.GTR
+			case token.GTR:
+				op = token.LSS
+			}
+		}
+		kind, ax, ok := axisOf(x)
+		if !ok || kind != "span" || ax != axis {
+			continue
+		}
+		q := coordKey(y)
+		switch op {
+		case token.GTR:
+			if guardedByEdge(ifi, 1, at) {
+				gt[q] = true
+			}
+		case token.LSS:
+			if guardedByEdge(ifi, 1, at) {
+				lt[q] = true
+			}
+		case token.EQL:
+			if guardedByEdge(ifi, 0, at) {
+				return true
+			}
+		case token.NEQ:
+			if guardedByEdge(ifi, 1, at) {
+				return true
+			}
+		}
+	}
+	for q := range gt {
+		if lt[q] {
+			return true
+		}
+	}
+	return false
+}
